@@ -74,6 +74,36 @@ pub fn selftest_extra() -> Vec<String> {
         chk!(crrl::ristretto255::Point);
         chk!(crrl::decaf448::Point);
     }
+    // projective scalar multiplication of the reference against its affine definition
+    {
+        use refmodel::curves::RefGroup;
+        let rf = points::refs();
+        for (e, tors) in [(&rf.ed25519, &rf.torsion[0]), (&rf.ed448, &rf.torsion[1])] {
+            let mut pts = vec![e.base(), e.neutral()];
+            pts.extend(tors.iter().cloned());
+            pts.push(e.add(&e.base(), &tors[tors.len() - 1]));
+            for (i, pt) in pts.iter().enumerate() {
+                let k = (num_bigint::BigUint::from(r128()) * num_bigint::BigUint::from(r128()) + (i as u32)) % e.order();
+                for kk in [k, num_bigint::BigUint::from(i as u32), e.order(), e.order() - 1u32] {
+                    if e.mul_ext(&kk, pt) != e.mul_affine(&kk, pt) {
+                        errs.push(format!("{}: reference mul_ext != affine double-and-add", e.name));
+                    }
+                }
+            }
+        }
+        for w in [&rf.p256, &rf.secp256k1] {
+            let b = w.base();
+            let pts = vec![b.clone(), w.double(&b), w.neg(&b), refmodel::curves::Pt::Inf];
+            for (i, pt) in pts.iter().enumerate() {
+                let k = (num_bigint::BigUint::from(r128()) * num_bigint::BigUint::from(r128())) % w.order();
+                for kk in [k, num_bigint::BigUint::from(i as u32), num_bigint::BigUint::from(2u32), w.order(), w.order() - 1u32, w.order() + 1u32] {
+                    if w.mul_jac(&kk, pt) != w.mul_affine(&kk, pt) {
+                        errs.push(format!("{}: reference mul_jac != affine double-and-add", w.name));
+                    }
+                }
+            }
+        }
+    }
     // prime-field inverse: Euclid vs Fermat
     let p = (num_bigint::BigUint::from(1u32) << 255) - 19u32;
     for _ in 0..50 {
